@@ -237,13 +237,16 @@ class Ctx:
         self.results.append(GoalResult(gid, UNDECIDED, 'B', secs, detail='solver answered unknown / timeout', solver=solver, kind=kind))
         return UNDECIDED
 
-    def prove_ring(self, sub, pairs, subs=None, kind='post', fallback=None):
+    def prove_ring(self, sub, pairs, subs=None, kind='post', fallback=None, relations=None):
         """prove a conjunction of equalities lhs == rhs by ring normalisation (sympy); pairs: list of (lhs, rhs) z3 terms"""
         from . import ring
         gid = self.oid + ('.' + sub if sub else '')
         t0 = time.time()
         try:
-            ok = all(ring.identity(z3real(a), z3real(b), subs) for a, b in pairs)
+            if relations:
+                ok = all(ring.identity_mod(z3real(a), z3real(b), relations) for a, b in pairs)
+            else:
+                ok = all(ring.identity(z3real(a), z3real(b), subs) for a, b in pairs)
         except ring.NotRing as e:
             ok = None
         secs = time.time() - t0
@@ -252,6 +255,8 @@ class Ctx:
             return PROVED
         if fallback is not None:
             return fallback()
+        if ok is False and relations:
+            ok = None
         if ok is False:
             # the normal form of lhs - rhs is a non-zero rational function: exhibit a point where it does not vanish
             from . import ring as _r
